@@ -128,7 +128,9 @@ def script_w(s):
                      opt_rows(oo.get('sl')), opt_rows(oo.get('tp')),
                      '-' if not u else str(u['every']), opt(u.get('sl')), opt(u.get('tp')),
                      opt(r.get('sl')), '-' if s.get('liquidate_at') is None else str(s['liquidate_at']),
-                     '-' if s.get('gate') is None else str(s['gate'])])
+                     '-' if s.get('gate') is None else str(s['gate']),
+                     '-' if s.get('withdraw_tp_at') is None else str(s['withdraw_tp_at']),
+                     '-' if s.get('withdraw_sl_at') is None else str(s['withdraw_sl_at'])])
 
 
 def session_line(sess, cands):
